@@ -487,7 +487,11 @@ def observe_expression(expr):
         return "Ok None"
     if isinstance(st, SaveAtInterval):
         return "Ok (Some (SInterval %s))" % c_Z(st.interval)
-    return "Ok (Some (SFun %s))" % SFUN_OF[st.__name__]
+    import lemoncheesecake.reporting.savingstrategy as mod
+    for name, con in SFUN_OF.items():           # by identity: a strategy need not be a plain function
+        if getattr(mod, name, None) is st:
+            return "Ok (Some (SFun %s))" % con
+    return "Ok (Some (SInterval (-1)%Z))"        # an object the harness does not recognise: equal to no strategy of the model
 
 
 def expr_file(rng):
